@@ -4,8 +4,8 @@
 (* objects (C12, C13, C15b) over the public operations of their APIs.      *)
 (*                                                                         *)
 (* K object slots; a slot is "none" (no object) or an abstract value:      *)
-(*   Variant      [i |-> -1 | 0 | 1, v |-> value]     (0 = A, 1 = B; C      *)
-(*                                                     converts to A)       *)
+(*   Variant      [i |-> -1 | 0 | 1 | 2, v |-> value]  (0 = A, 1 = int,     *)
+(*                                      2 = B; C converts to A)            *)
 (*   Optional     [e |-> TRUE] | [e |-> FALSE, v |-> value]                 *)
 (*   Result       [s |-> "empty"] | [s |-> "err", c |-> code] |             *)
 (*                [s |-> "val", v |-> value]                                *)
@@ -35,17 +35,18 @@ VNextSlot(pre, op) ==      \* the new value of slot op.o + 1 for an operation th
       p == Def(op, "p", 0) + 1 IN
   CASE op.op \in {"new_empty", "new_ev", "assign_ev"} -> VEmpty
     [] op.op \in {"new_a", "assign_a", "new_c", "assign_c"} -> [i |-> 0, v |-> op.val]
-    [] op.op \in {"new_b", "assign_b"} -> [i |-> 1, v |-> op.val]
+    [] op.op \in {"new_i", "assign_i"} -> [i |-> 1, v |-> op.val]
+    [] op.op \in {"new_b", "assign_b"} -> [i |-> 2, v |-> op.val]
     [] op.op \in {"new_copy", "new_move", "assign_copy", "assign_move"} -> pre[p]
     [] op.op = "become" -> IF op.idx = pre[o].i THEN pre[o]
-                           ELSE IF op.idx \in {0, 1} THEN [i |-> op.idx, v |-> 0] ELSE VEmpty
+                           ELSE IF op.idx \in {0, 1, 2} THEN [i |-> op.idx, v |-> 0] ELSE VEmpty
     [] op.op = "visit" -> pre[o]
     [] op.op = "destroy" -> None
 
 VPre(pre, op) ==           \* is the operation applicable (the generator may emit inapplicable ones: ignored)
   LET o == op.o + 1
       p == Def(op, "p", 0) + 1 IN
-  /\ (op.op \in {"new_empty", "new_ev", "new_a", "new_b", "new_c", "new_copy", "new_move"}) <=> pre[o] = None
+  /\ (op.op \in {"new_empty", "new_ev", "new_a", "new_b", "new_c", "new_i", "new_copy", "new_move"}) <=> pre[o] = None
   /\ (op.op \in {"new_copy", "new_move", "assign_copy", "assign_move"}) => pre[p] # None
 
 IsMove(op) == op.op \in {"new_move", "assign_move"}
@@ -73,7 +74,7 @@ VNext(pre, op) ==
 
 \* what the ledger of live elements must show: one live element per non-empty variant, of the type its index names
 VAlive(objs) == <<Cardinality({s \in Slots : objs[s] # None /\ objs[s].i = 0}),
-                  Cardinality({s \in Slots : objs[s] # None /\ objs[s].i = 1}), 0>>
+                  Cardinality({s \in Slots : objs[s] # None /\ objs[s].i = 2}), 0>>
 
 \* ---- Optional / Entry ---------------------------------------------------------
 OEmpty == [e |-> TRUE]
@@ -86,6 +87,8 @@ ONextSlot(pre, op) ==
     [] op.op \in {"new_copy", "new_move", "assign_copy", "assign_move"} -> pre[p]
     [] op.op = "take" -> pre[o]
     [] op.op = "destroy" -> None
+    \* assignment from an Optional of a different element type: the value is converted, an empty source empties
+    [] op.op \in {"assign_conv_move", "assign_conv_copy"} -> IF op.srcempty THEN OEmpty ELSE OVal(op.val)
 OPre(pre, op) ==
   LET o == op.o + 1
       p == Def(op, "p", 0) + 1 IN
